@@ -295,8 +295,6 @@ def _result_spec(draw, name, nvar, exotic, tier):
                 histories=hist)
 
 
-_EMBED_SCALAR = ("int", "float", "str", "np")
-
 
 def _embeddable(p):
     d = p["value"]
@@ -572,6 +570,9 @@ class Diff(object):
             orig_type=_tname(a), got_type=_tname(b),
             orig=repr(a)[:80], got=repr(b)[:80],
             orig_size0=bool(isinstance(a, np.ndarray) and a.size == 0),
+            set_has_narrow_float=bool(
+                isinstance(a, (set, frozenset)) and
+                any(_tname(x) in _FLOAT_NARROW for x in a)),
             orig_dtype=str(a.dtype) if isinstance(a, np.ndarray) else None,
             field=field[-1] if field else "", rtype=info.get("rtype"),
             racc=info.get("racc")))
@@ -661,6 +662,8 @@ def _priority(item):
     known = 0
     if item["orig_type"] in _FLOAT_NARROW:
         known = 1
+    elif item["reason"] == "length" and item["set_has_narrow_float"]:
+        known = 1
     elif item["reason"] == "shape" and item["orig_size0"]:
         known = 5
     elif item["reason"] == "kind" and item["orig_dtype"] == "uint64":
@@ -732,6 +735,7 @@ class Run(object):
                            orig_type=it["orig_type"], field=it["field"],
                            rtype=it["rtype"], racc=it["racc"],
                            orig_size0=it["orig_size0"],
+                           set_has_narrow_float=it["set_has_narrow_float"],
                            orig_dtype=it["orig_dtype"]))
         if _priority(it) == 0:
             raise v
